@@ -146,6 +146,31 @@ def g_column(tier, seed):
             ok = all(p.kind == 'return' and p.value[4] is not None for p in paths) and paths
             out.append(ob.res('O1', '%s accepts a 3x1 variance column and returns a covariance' % fn.__name__, 'proved' if ok else 'inconclusive',
                               [ob.qrec('paths', solve.prove([], z3.BoolVal(bool(ok)), 5, False))]))
+        # a column of variances means the diagonal covariance: same result, entry by entry, as for the 3x3 diagonal matrix
+
+        def run2():
+            d = [fresh_real('d0', 0, 1), fresh_real('d1', 0, 1), fresh_real('d2', 0, 1)]
+            e, n, h = fresh_real('east', 100000, 900000), fresh_real('north', 1000000, 9500000), fresh_real('h', -100, 3000)
+            col = npx.FArr([[d[0]], [d[1]], [d[2]]])
+            dia = npx.FArr([[d[0], 0, 0], [0, d[1], 0], [0, 0, d[2]]])
+            return fn(55, e, n, h, col), fn(55, e, n, h, dia)
+        with swap_globals(tr, hp2dec=hpdec_uf, **keep):
+            paths, st = explore(run2, max_paths=20)
+        for p in paths:
+            if p.kind != 'return':
+                out.append(ob.res('O1', '%s: 3x1 column vs diagonal matrix' % fn.__name__, 'inconclusive', [], 'path %s: %s' % (p.kind, p.value)))
+                continue
+            ra, rb = p.value
+            try:
+                ca, cb = [[ra[4][i][j] for j in range(3)] for i in range(3)], [[rb[4][i][j] for j in range(3)] for i in range(3)]
+            except Exception as ex:  # noqa
+                out.append(ob.ground_violation('O1', '%s: covariance for a 3x1 column is not a 3x3 matrix (%r)' % (fn.__name__, ex), PID, 'O1:3x1-column',
+                                               'oracles.c13:column', {'fn': fn.__name__}))
+                continue
+            goal = z3.And(*[toz(ca[i][j]) == toz(cb[i][j]) for i in range(3) for j in range(3)])
+            out.append(ob.decide_goal('O1', '%s: a 3x1 variance column gives the covariance of the equivalent diagonal 3x3 matrix' % fn.__name__,
+                                      ob.path_conds(p), goal, pid=PID, oracle='oracles.c13:column', args_from_model=lambda env, fn=fn: {'fn': fn.__name__},
+                                      key='O1:3x1-column', timeout_s=30))
     return out
 
 
